@@ -4,9 +4,10 @@
 cd /verif
 MAPPER="C01 C02 C03 C04 C05 C06 C07 C08 C09 C19"
 LOOP="C10 C11 C12 C20"
-for s in C01 C02 C03 C04 C05 C06 C07 C08 C09 C19; do python3 tools/seed_run.py $s $MAPPER; done
-for s in C10 C11 C12 C20; do python3 tools/seed_run.py $s $LOOP; done
-for s in C13 C14; do python3 tools/seed_run.py $s C13 C14; done
+for s in C01 C02 C02b C03 C03b C04 C04b C05 C05b C05c C06 C07 C08 C08b C09 C19; do python3 tools/seed_run.py $s $MAPPER; done
+for s in C10 C11 C11b C12 C20; do python3 tools/seed_run.py $s $LOOP; done
+for s in C13 C13b C13c C14; do python3 tools/seed_run.py $s C13 C14; done
 python3 tools/seed_run.py C17 C17
 python3 tools/seed_run.py C18 C18
 git -C /repo status --short
+echo MATRIX-DONE
